@@ -669,35 +669,60 @@ def _always_returns(e):
 
 
 def _version_line_table(ctx, hfn):
-    """try_version_from_line as a decision table over (has the prefix, is empty)"""
+    """try_version_from_line as a decision table over (has the prefix, is empty) -- symbolic evaluation, so early
+    returns, one `if` chain and a `match` on the pair of tests are the same table"""
+    import symeval as SE
+    import itertools
     prefix = M('starts_with', L('line'), OR(P('VERSION_PREFIX'), K('osu file format v')))
     empty = M('is_empty', L('line'))
-    got = {}
-    for conds, leaf, _r in decision_paths(hfn['body']):
-        key = {}
-        for c, pol in conds:
-            c2 = strip(c)
+    ev = SE.SymEval(None, budget=6000)
+    body = hfn['body']
+    try:
+        tree = ev.seq(list(body.get('stmts', [])), body.get('expr'), {},
+                      lambda env, tail: ev.value(tail, env) if tail is not None else ('v', {'k': 'unit'}),
+                      kret=lambda vt, env=None: vt)
+    except SE.Stop:
+        return False, 'function too large to evaluate symbolically', None
+
+    def decide(val):
+        def d(c):
+            if c[0] != 'e':
+                return None
+            c2, pol = strip(c[1]), True
             while isinstance(c2, dict) and c2.get('k') == 'unary' and c2.get('op') == 'Not':
-                c2 = strip(c2['e'])
-                pol = not pol
+                c2, pol = strip(c2['e']), not pol
+            ctx.env = {}
             if prefix.m(ctx, c2):
-                key['prefix'] = pol
-            elif empty.m(ctx, c2):
-                key['empty'] = pol
+                return val['prefix'] == pol
+            if empty.m(ctx, c2):
+                return val['empty'] == pol
+            return None
+        return d
+    got = {}
+    for pf, em in itertools.product((True, False), repeat=2):
+        # below the first undecidable test (the number parse) everything is "the version"
+        t = tree
+        dfn = decide({'prefix': pf, 'empty': em})
+        while t[0] == 'ite':
+            r = dfn(t[1])
+            if r is None:
+                break
+            t = t[2] if r else t[3]
+        leafs = [l for _p, l in SE.leaves(t)]
+        kinds = set()
+        for leaf in leafs:
+            if CONTAINS(P('ControlFlow::Continue')).m(ctx, leaf):
+                kinds.add('skip')
+            elif CONTAINS(P('UnknownFileFormat')).m(ctx, leaf):
+                kinds.add('unknown-format')
             else:
-                key['other'] = True
-        if CONTAINS(P('ControlFlow::Continue')).m(ctx, leaf):
-            kind = 'skip'
-        elif CONTAINS(P('UnknownFileFormat')).m(ctx, leaf):
-            kind = 'unknown-format'
-        else:
-            kind = 'version'
-        got.setdefault(kind, []).append(tuple(sorted(key.items())))
-    exp = {'skip': [(('empty', True), ('prefix', False))], 'unknown-format': [(('empty', False), ('prefix', False))],
-           'version': [(('prefix', True),)]}
-    ok = {k: sorted(v) for k, v in got.items()} == exp
+                kinds.add('version')
+        got[(pf, em)] = kinds
+    exp = {(True, True): {'version'}, (True, False): {'version'}, (False, True): {'skip'}, (False, False): {'unknown-format'}}
+    ok = got == exp
+    show = {('prefix' if k[0] else 'no prefix') + (', blank' if k[1] else ', not blank'): sorted(v) for k, v in got.items()}
     return ok, '' if ok else ('version-line decisions are %s; expected: prefix -> version, no prefix and blank -> skip the '
-                              'line, no prefix and not blank -> unknown format' % got), None
+                              'line, no prefix and not blank -> unknown format' % show), None
 
 
 _version_line_table.positive = True
@@ -945,6 +970,12 @@ CST = 'section::hit_objects::hit_samples::SampleBankInfo::convert_sound_type'
 _HS = 'section::hit_objects::hit_samples::'
 
 
+def _nodes(e):
+    out = []
+    H.walk(e if isinstance(e, dict) else {}, lambda x, a: out.append(x))
+    return out
+
+
 def _sound_type_samples(aspect):
     """hit-sound byte + bank info -> sample list (legacy rules): the first sample is the file sample (bank none, index 1)
     when a non-empty file name is given, else `hitnormal` (normal bank), layered iff the byte is non-zero without the NORMAL
@@ -961,6 +992,13 @@ def _sound_type_samples(aspect):
                 ctors.append((n, list(anc)))
             if n.get('k') == 'assign' and isinstance(n['l'], dict) and n['l'].get('k') == 'field' and n['l'].get('n') == 'is_layered':
                 assigns.append(n)
+            if n.get('k') == 'struct' and n.get('adt', '').endswith('hit_samples::HitSampleInfo') and n.get('base') is not None:
+                # `HitSampleInfo { is_layered: X, ..HitSampleInfo::new(HIT_NORMAL, ..) }` sets the flag of that sample
+                for f_ in n.get('fields', []):
+                    if f_['n'] == 'is_layered':
+                        assigns.append({'k': 'assign', 'l': None, 'r': f_['e'], 'ln': f_.get('ln'), 'on': n['base']})
+            if n.get('k') == 'match' and not n.get('src', '').startswith('TryDesugar'):
+                matches_.append(n)
             if n.get('k') == 'if':
                 ifs.append(n)
             if n.get('k') == 'tup' and len(n.get('es', [])) == 2:
@@ -970,6 +1008,7 @@ def _sound_type_samples(aspect):
                 if isinstance(cl, dict) and cl.get('k') == 'closure':
                     filters.append(strip(cl['body']))
         filters = []
+        matches_ = []
         H.walk(hfn['body'], visit)
         # a flag -> name table kept in a (nested) const: its tuples count where the const is used
 
@@ -1008,6 +1047,8 @@ def _sound_type_samples(aspect):
             has_normal = OR(M('has_flag', ST, P('HitSoundType::NORMAL')), C('has_flag', ST, P('HitSoundType::NORMAL')))
             pat = BIN('And', BIN('Ne', ST, OR(P('HitSoundType::NONE'), K(0)), commutative=True), UN('Not', has_normal), commutative=True)
             ok = pat.m(ctx, assigns[0]['r'])
+            if ok and assigns[0].get('on') is not None and not any(c[0] is strip(assigns[0]['on']) for c in normals):
+                return False, 'the layered flag is set on a sample other than the normal sample', assigns[0].get('ln')
             return ok, '' if ok else ('the normal sample is layered iff `sound_type != NONE && !sound_type.has_flag(NORMAL)`; '
                                       'found another condition'), assigns[0].get('ln')
         if aspect == 'primary':
@@ -1034,6 +1075,19 @@ def _sound_type_samples(aspect):
                     ok = CONTAINS(M('filter', fld('filename'), CONTAINS(UN('Not', M('is_empty', ANY()))))).m(ctx, init) or \
                         M('filter', fld('filename'), CONTAINS(UN('Not', M('is_empty', ANY())))).m(ctx, init)
                     return ok, '' if ok else 'file/normal sample choice is not "a non-empty file name is given"', i.get('ln')
+            for mt in matches_:
+                # `match filename { Some(f) if !f.is_empty() => <file sample>, _ => <normal sample> }`
+                arm_f = [a for a in mt['arms'] if any(x is f for x in _nodes(a['body']))]
+                arm_n = [a for a in mt['arms'] if any(x is nrm for x in _nodes(a['body']))]
+                if len(arm_f) == 1 and len(arm_n) == 1 and arm_f[0] is not arm_n[0] and len(mt['arms']) == 2:
+                    pa = arm_f[0]['pat']
+                    g = arm_f[0].get('guard')
+                    nm_ = pa['pats'][0].get('name') if pa.get('k') == 'ptstruct' and pa['path'].get('name') == 'Some' and \
+                        len(pa.get('pats', [])) == 1 and pa['pats'][0].get('k') == 'bind' else None
+                    ctx.env = {}
+                    ok = nm_ is not None and g is not None and fld('filename').m(ctx, mt['scrut']) and \
+                        UN('Not', M('is_empty', L(nm_))).m(ctx, g) and mt['arms'].index(arm_f[0]) == 0
+                    return ok, '' if ok else 'file/normal sample choice is not "a non-empty file name is given"', mt.get('ln')
             return False, 'the file sample and the normal sample are not the two branches of one test', None
         if aspect == 'additions':
             if not others:
@@ -1624,10 +1678,18 @@ def _break_forces_combo(ctx, hfn):
     applied = 0
 
     sites = H.new_combo_or_sites(ctx.facts, hfn)
-    if sites and all(strip(r_).get('k') != 'local' for r_, _m, _n in sites):
-        # no boolean flag at all: the slice-cursor spelling (count of the leading passed breaks > 0)
+    def _flag_value(r_):
+        # `let force = passed > 0;` -- an immutable local stands for its initialiser
+        x = strip(r_)
+        if isinstance(x, dict) and x.get('k') == 'local':
+            its = unique_inits(ctx, x['name'])
+            if len(its) == 1 and isinstance(strip(its[0]), dict) and strip(its[0]).get('k') == 'binary':
+                return its[0]
+        return r_
+    if sites:
+        # no boolean flag that is set and reset: the slice-cursor spelling (count of the leading passed breaks > 0)
         from hp import slice_cursor_break_flag
-        res = [slice_cursor_break_flag(ctx, hfn, r_) for r_, _m, _n in sites]
+        res = [slice_cursor_break_flag(ctx, hfn, _flag_value(r_)) for r_, _m, _n in sites]
         if all(r is not None for r in res):
             bad = [r for r in res if not r[0]]
             if bad:
